@@ -412,12 +412,12 @@ func (f *frame) applyContract(sp *FuncSpec, callee *ssa.Function, args []Val, pc
 		}
 	} else {
 		ms := c.modsOf(callee)
-		if ms.all {
-			c.havocAll(st)
-		}
 		// the computed mod-set is coarse; fields the caller declares preserved
 		// (closed by structural writer obligations the callee cannot reach) stay
 		kept := f.preservedHeaps(callee)
+		if ms.all {
+			c.havocAllExcept(st, kept)
+		}
 		keepGhosts := f.asyncBoundary(callee)
 		for _, h := range ms.list() {
 			if strings.HasPrefix(h, "ghost$") && keepGhosts[h[6:]] {
@@ -428,9 +428,11 @@ func (f *frame) applyContract(sp *FuncSpec, callee *ssa.Function, args []Val, pc
 			}
 		}
 	}
+	privSnap := f.snapshotPrivate(old)
 	for _, h := range mods {
 		c.havocHeap(st, h)
 	}
+	f.keepPrivate(privSnap, st)
 	// an argument that points INTO another object (field of struct type, slice
 	// element): the callee's writes to "T.f" land in the container, not in the
 	// H$T$f heap of free-standing T objects. Give the pointed-to struct an
@@ -710,10 +712,11 @@ func (f *frame) abstractCall(callee *ssa.Function, cc *ssa.CallCommon, pc *Term,
 			}
 		}
 	}
-	if ms.all {
-		c.havocAll(st)
-	}
 	kept := f.preservedHeaps(callee)
+	privSnap := f.snapshotPrivate(st)
+	if ms.all {
+		c.havocAllExcept(st, kept)
+	}
 	keepGhosts := f.asyncBoundary(callee)
 	for _, h := range ms.list() {
 		if kept[h] {
@@ -724,6 +727,7 @@ func (f *frame) abstractCall(callee *ssa.Function, cc *ssa.CallCommon, pc *Term,
 		}
 		c.havocHeap(st, h)
 	}
+	f.keepPrivate(privSnap, st)
 	c.bumpAlloc(st)
 	rt := cc.Signature().Results()
 	switch rt.Len() {
